@@ -223,6 +223,11 @@ func snapValue(sb *strings.Builder, v Value, seen map[*Value]int, depth int) {
 			snapValue(sb, x.m[k].v, seen, depth+1)
 			sb.WriteString(",")
 		}
+		for _, e := range x.sym {
+			sb.WriteString("<symbolic key>:")
+			snapValue(sb, e.v, seen, depth+1)
+			sb.WriteString(",")
+		}
 		sb.WriteString("]")
 	case Iface:
 		if x.t == nil {
